@@ -10,6 +10,9 @@ Three things happen for every generated case (one reader construction + one hist
   * the same lines go to the compiled Lean model and the replies are diffed (correspondence);
   * `Cur`, a flat cursor written from the property statement, is advanced by the same operations and must return exactly
     what the real class returned (the oracle - the only thing that decides a violation).
+Observations are second-order: besides the value, the exact type of every object handed out (return values, readlines()
+items, chunks written to a pipe destination, chunks of an iteration) must be `bytes` (`bytearray(b'a') == b'a'` is True,
+so the value comparison alone cannot see a reader that starts handing out mutable look-alikes).
 """
 PROP = 'C14'
 LEAN_MODULES = ['FalconModel.Reader', 'FalconModel.ReaderExtra', 'FalconModel.ReaderProofs', 'FalconModel.FindLemmas',
@@ -180,7 +183,8 @@ STATEMENTS = {
 }
 TRUSTED = [
     'LawfulSource as the contract of the read callable handed to the sync reader (returns a prefix of the text still to come, at most the requested length, empty only at its end); instance proved for the file-like source with any short-read oracle',
-    'the Python statement oracle `Cur` in harness/props/c14.py (flat cursor; a delimited sub-reader = cursor over the text up to the next delimiter)',
+    'the Python statement oracle `Cur` in harness/props/c14.py (flat cursor; a delimited sub-reader = cursor over the text up to the next delimiter); "what a cursor over a byte string returns" is read as: an object whose type is exactly bytes',
+    'the Lean models compute on List UInt8: the TYPE of the Python object is not a notion of the model; the correspondence treats "the model answered with bytes" as constant, so any other observed type is a mismatch by construction of the rendering (_render), not by a theorem',
     'timers deciding "did not return": 3 s of CPU time (ITIMER_VIRTUAL) or 60 s wall-clock (ITIMER_REAL) per real call; asyncio.wait_for(..., 60 s) around every async case',
     'async reader: the theorems are about the model ARd/ARi (AsyncReader.lean, AsyncReaderIter.lean) for the root reader and about An/Ma (AsyncReaderNested.lean on MultipartAsync.lean: the same file transcribed generically in its chunk source, a delimited child being a reader over the parent\'s _iter_delimited generator) for nested readers - An.toMa_asyncStep proves the two agree at the root; that these models behave like falcon/asgi/reader.py is the differential correspondence through ardriver (return values, exceptions, tell(), eof, the chunks of an iteration, at every nesting level); a root source is a finite list of byte chunks; the representation invariant Good requires chunk_size > 0',
     'nested readers: the theorems nested_depth_refines / async_nested_depth_refines are about programs (Rn.Prog / An.AProg: operations and properly nested delimit{...} blocks, run by runProg / runAProg) for ANY depth; the drivers execute the flat delimit/pop line protocol with a stack of at most two nested levels using the same primitives (Rd.delimit / Ma.delimit of the innermost reader, pop = its .src.parent) - that this bookkeeping is runProg on the corresponding program is by inspection of RdMain.lean / ArMain.lean, not a theorem',
@@ -204,6 +208,9 @@ RULE = ('random part: data over {a,b,CR,LF,-} (uniform or delimiter-sparse) of l
         'to length 2 (quick, and thorough for length-4 data) / 3 (thorough, data up to length 3) over a fixed op alphabet (sync 18 ops, async 17 ops) incl. delimit/pop; one in 40 grid cases '
         'also goes to the model. Nested cases of BOTH readers (delimit / operations on the child and grandchild incl. iteration / pop, then the parent again) are compared with the model '
         'line by line like root cases (sync: Rd.delimit over Rd.Delim sources; async: Ma.delimit over Ma.DelimGen sources, tags async_nested_modelled / async_nested_iter_modelled). '
+        'SECOND-ORDER observation: the canonical observation of every operation is (value, exact type): `type(x) is bytes` is required of every return value of read/peek/read_until/readline/readall, every item '
+        'of readlines() (and the list itself), every object handed to destination.write() by pipe/pipe_until (the destination keeps the objects instead of joining them) and every chunk of an async iteration, on root, '
+        'child and grandchild readers; a bytearray / memoryview / bytes subclass with the right content (== is True) is a difference both for the oracle and - as a TYPE[...] suffix the model never emits - for the correspondence. '
         'non-trivial = some operation returned data; distinct = distinct (reader kind, construction, history)')
 PARTIAL = ('Proved for the sync reader over any lawful source (= every chunking and short-read pattern): every history of public operations of one reader - read, peek, read_until and pipe_until '
            'with and without delimiter consumption (join and pipe_until branch), pipe, exhaust, readline, readlines - refines the flat cursor (public_history_refines_cursor). Proved for the async '
@@ -312,15 +319,21 @@ class Cur:
 
     def step(self, op, obs):
         """Advance by `op` given the implementation's outcome; returns None if some candidate position agrees, else the
-        outcome the cursor gives."""
+        outcome the cursor gives.
+
+        A cursor over a byte string returns `bytes` objects: an observation that carries a type tag (third component, put
+        there by `_typed*` when some returned / written / yielded object is not exactly a `bytes` - note that
+        `bytearray(b'ab') == b'ab'`, so `==` alone cannot see it) never agrees, whatever its content."""
+        wrong_type = len(obs) == 3 and obs[0] in ('ok', 'lines', 'chunks')
+        core = obs[:2] if wrong_type else obs
         new, exp = set(), None
         for p in sorted(self.ps):
-            for out, q in self.spec(p, op, obs):
+            for out, q in self.spec(p, op, core):
                 if exp is None:
                     exp = out
-                if out == obs:
+                if out == core:
                     new.add(q)
-        if not new:
+        if wrong_type or not new:
             return exp
         self.ps = new
         return None
@@ -346,15 +359,56 @@ class Cur:
             self.ps = set(range(p0 + min(child.ps), p0 + len(child.d) + 1))
 
 
+def _tname(x):
+    t = type(x)
+    return t.__name__ if t.__module__ == 'builtins' else t.__module__ + '.' + t.__qualname__
+
+
+def _flat_bytes(x):
+    try:
+        return bytes(x) if not isinstance(x, (str, int)) and x is not None else repr(x).encode()
+    except Exception:  # noqa
+        return repr(x).encode()
+
+
+_TYPE_CHECKED = [0]      # objects whose exact type was observed (flushed into the evidence counters)
+
+
+def _typed(x, what='returned'):
+    """canonical observation of ONE returned byte string: value + exact type (`type(x) is bytes`, not ==/isinstance)"""
+    _TYPE_CHECKED[0] += 1
+    if type(x) is bytes:
+        return ('ok', x)
+    return ('ok', _flat_bytes(x), f'{what} object is a {_tname(x)}, not a bytes')
+
+
+def _typed_seq(kind, xs, what):
+    """... of a sequence of byte strings (readlines items, the chunks of an iteration)"""
+    xs = tuple(xs)
+    _TYPE_CHECKED[0] += len(xs)
+    if all(type(x) is bytes for x in xs):
+        return (kind, xs)
+    return (kind, tuple(_flat_bytes(x) for x in xs), f'{what} have the types [{", ".join(_tname(x) for x in xs)}], not all bytes')
+
+
+def _typed_written(chunks):
+    """... of what pipe()/pipe_until() wrote: the joined bytes + the exact type of every chunk handed to destination.write()"""
+    _TYPE_CHECKED[0] += len(chunks)
+    if all(type(x) is bytes for x in chunks):
+        return ('ok', b''.join(chunks))
+    return ('ok', b''.join(_flat_bytes(x) for x in chunks), f'chunks written to the destination have the types [{", ".join(_tname(x) for x in chunks)}], not all bytes')
+
+
 def _show(o):
     if o is None:
         return 'None'
+    tag = f' ({o[2]})' if len(o) == 3 and o[0] in ('ok', 'lines', 'chunks') else ''
     if o[0] == 'ok':
-        return 'bytes ' + (o[1].hex() or "''")
+        return 'bytes ' + (o[1].hex() or "''") + tag
     if o[0] == 'lines':
-        return 'lines [' + ' '.join(x.hex() for x in o[1]) + ']'
+        return 'lines [' + ' '.join(x.hex() for x in o[1]) + ']' + tag
     if o[0] == 'chunks':
-        return 'chunks ' + (o[1] if isinstance(o[1], str) else '[' + ' '.join(x.hex() for x in o[1]) + ']')
+        return 'chunks ' + (o[1] if isinstance(o[1], str) else '[' + ' '.join(x.hex() for x in o[1]) + ']') + tag
     return {'delim': 'DelimiterError', 'value': 'ValueError', 'unit': 'None', 'hang': 'no return within %.0f s of CPU time' % OP_TIMEOUT,
             'blocked': 'blocked awaiting'}.get(o[0], ' '.join(map(str, o)))
 
@@ -362,12 +416,14 @@ def _show(o):
 def _render(o):
     """outcome -> the drivers' reply format"""
     k = o[0]
+    # the model's answers are always bytes: its replies carry no type tag, so a tagged observation is a mismatch
+    tag = ' TYPE[' + o[2] + ']' if len(o) == 3 and k in ('ok', 'lines', 'chunks') else ''
     if k == 'ok':
-        return 'ok ' + o[1].hex()
+        return 'ok ' + o[1].hex() + tag
     if k == 'lines':
-        return 'lines' + ''.join(' ' + x.hex() for x in o[1])
+        return 'lines' + ''.join(' ' + x.hex() for x in o[1]) + tag
     if k == 'chunks':
-        return 'chunks' + ''.join(' ' + (x.hex() or '-') for x in o[1])
+        return 'chunks' + ''.join(' ' + (x.hex() or '-') for x in o[1]) + tag
     return {'unit': 'unit', 'delim': 'err delim', 'value': 'err value'}.get(k, k.upper())
 
 
@@ -542,6 +598,17 @@ class _Src:
         return out
 
 
+class _WSink:
+    """destination of the sync pipe()/pipe_until(): keeps every written object as it is (an io.BytesIO would flatten the types)"""
+
+    def __init__(self):
+        self.chunks = []
+
+    def write(self, d):
+        self.chunks.append(d)
+        return len(d)
+
+
 class _Alarm:
     """`runner.alarm` for hot loops: the handlers are installed once per worker and every real call only (re)arms two timers -
     OP_TIMEOUT seconds of *CPU time* (ITIMER_VIRTUAL: a busy loop, which is how F21 shows, burns CPU; a machine loaded by other
@@ -584,19 +651,22 @@ class _SyncEnv:
             try:
                 self.alarm.arm()
                 if k == 'read':
-                    return ('ok', r.read(op[1]))
+                    return _typed(r.read(op[1]))
                 if k == 'peek':
-                    return ('ok', r.peek(op[1]))
+                    return _typed(r.peek(op[1]))
                 if k == 'ru':
-                    return ('ok', r.read_until(op[1], op[2], bool(op[3])))
+                    return _typed(r.read_until(op[1], op[2], bool(op[3])))
                 if k == 'pu':
-                    dst = self.io.BytesIO(); r.pipe_until(op[1], dst, bool(op[2])); return ('ok', dst.getvalue())
+                    dst = _WSink(); r.pipe_until(op[1], dst, bool(op[2])); return _typed_written(dst.chunks)
                 if k == 'pipe':
-                    dst = self.io.BytesIO(); r.pipe(dst); return ('ok', dst.getvalue())
+                    dst = _WSink(); r.pipe(dst); return _typed_written(dst.chunks)
                 if k == 'rl':
-                    return ('ok', r.readline(op[1]))
+                    return _typed(r.readline(op[1]))
                 if k == 'rls':
-                    return ('lines', tuple(r.readlines(op[1])))
+                    res = r.readlines(op[1])
+                    if type(res) is not list:
+                        return ('lines', tuple(_flat_bytes(x) for x in res), f'readlines() returned a {_tname(res)}, not a list')
+                    return _typed_seq('lines', res, 'the items of readlines()')
                 if k == 'exhaust':
                     r.exhaust(); return ('unit',)
                 if k == 'delimit':
@@ -779,7 +849,8 @@ def _sync_chooser(rnd, plan, wild, nest=True):
 
 
 SYNC_ORACLE = ('sync reader: every operation (read/peek/read_until/pipe_until/pipe/readline/readlines/exhaust, root and delimited '
-               'sub-readers) returns what the flat cursor over data[:max_len] returns; the source is never asked beyond max_len; every call returns')
+               'sub-readers) returns what the flat cursor over data[:max_len] returns - the same bytes AND exactly a bytes object (type(x) is bytes: every return value, every item of readlines(), '
+               'every chunk written by pipe/pipe_until); the source is never asked beyond max_len; every call returns')
 
 
 def _sync(ctx, BR, DelimiterError):
@@ -845,6 +916,7 @@ def _sync(ctx, BR, DelimiterError):
                     failed, hist, nontriv, tags = _run_sync(env, plan, lambda *_a: next(it, None), sess.next() if j % 40 == 0 else None)
                     record(plan, failed, hist, nontriv, tags, 'grid', ('sg', idx))
     sess.finish()
+    ctx.count('sync_objects_whose_exact_type_was_observed (return values, readlines items, written chunks)', _TYPE_CHECKED[0]); _TYPE_CHECKED[0] = 0
 
 
 # ====================================================================== async reader
@@ -855,15 +927,16 @@ ASYNC_GRID_OPS = [('read', 1), ('read', 2), ('read', None), ('readall',), ('peek
                   ('delimit', b'\n'), ('delimit', b'--'), ('pop',)]
 
 ASYNC_ORACLE = ('async reader: every operation (read/readall/peek/read_until/pipe_until/pipe/exhaust/iteration, root and delimited sub-readers) '
-                'returns what the flat cursor over the joined source returns; tell() = cursor position; eof only at the end and always after the end was observed; every call returns')
+                'returns what the flat cursor over the joined source returns - the same bytes AND exactly a bytes object (type(x) is bytes: every return value, every chunk written by pipe/pipe_until, '
+                'every chunk of an iteration); tell() = cursor position; eof only at the end and always after the end was observed; every call returns')
 
 
 class _Sink:
     def __init__(self):
-        self.b = b''
+        self.chunks = []
 
     async def write(self, d):
-        self.b += d
+        self.chunks.append(d)
 
 
 async def _acall(alarm, DE, r, op):
@@ -873,17 +946,17 @@ async def _acall(alarm, DE, r, op):
         try:
             alarm.arm()
             if k == 'read':
-                return ('ok', await r.read(op[1]))
+                return _typed(await r.read(op[1]))
             if k == 'readall':
-                return ('ok', await r.readall())
+                return _typed(await r.readall())
             if k == 'peek':
-                return ('ok', await r.peek(op[1]))
+                return _typed(await r.peek(op[1]))
             if k == 'ru':
-                return ('ok', await r.read_until(op[1], op[2], bool(op[3])))
+                return _typed(await r.read_until(op[1], op[2], bool(op[3])))
             if k == 'pu':
-                dst = _Sink(); await r.pipe_until(op[1], dst, bool(op[2])); return ('ok', dst.b)
+                dst = _Sink(); await r.pipe_until(op[1], dst, bool(op[2])); return _typed_written(dst.chunks)
             if k == 'pipe':
-                dst = _Sink(); await r.pipe(dst); return ('ok', dst.b)
+                dst = _Sink(); await r.pipe(dst); return _typed_written(dst.chunks)
             if k == 'exhaust':
                 await r.exhaust(); return ('unit',)
             if k == 'iter':
@@ -892,7 +965,7 @@ async def _acall(alarm, DE, r, op):
                     out.append(ch)
                     if len(out) >= op[1]:
                         break
-                return ('chunks', tuple(out))
+                return _typed_seq('chunks', out, 'the chunks of the iteration')
             raise AssertionError(op)
         finally:
             alarm.off()
@@ -1162,6 +1235,7 @@ def _async(ctx, BR, DelimiterError):
                         await asyncio.sleep(0)
     asyncio.run(main())
     sess.finish()
+    ctx.count('async_objects_whose_exact_type_was_observed (return values, written chunks, iteration chunks)', _TYPE_CHECKED[0]); _TYPE_CHECKED[0] = 0
 
 
 # ====================================================================== the prebuilt cython twin (observation only)
